@@ -15,6 +15,22 @@ Theorem C13_chebyshev_is_cos : forall n q th, Q2R q = cos th -> Q2R (chebyshev_r
 Proof. exact chebyshev_is_cos. Qed.
 Print Assumptions C13_chebyshev_is_cos.
 
+(* the textbook definition verbatim, every order, every abscissa of [-1, 1]: T_n(x) = cos(n arccos x); hence |T_n| <= 1 *)
+Theorem C13_chebyshev_is_cos_acos : forall n q, -1 <= q -> q <= 1 ->
+  Q2R (chebyshev_rec n q) = cos (INR n * acos (Q2R q)).
+Proof. exact chebyshev_is_cos_acos. Qed.
+Print Assumptions C13_chebyshev_is_cos_acos.
+Theorem C13_chebyshev_bounded : forall n q, -1 <= q -> q <= 1 -> (-1 <= Q2R (chebyshev_rec n q) <= 1)%R.
+Proof. exact chebyshev_bounded. Qed.
+Print Assumptions C13_chebyshev_bounded.
+
+Theorem C13_chebyshev_at_one : forall n, chebyshev_rec n 1 == 1.
+Proof. exact chebyshev_at_one. Qed.
+Print Assumptions C13_chebyshev_at_one.
+Theorem C13_chebyshev_parity : forall n x, chebyshev_rec n (- x) == psign n * chebyshev_rec n x.
+Proof. exact chebyshev_parity. Qed.
+Print Assumptions C13_chebyshev_parity.
+
 (* ... and equals the closed-form coefficient table for every order the property quantifies over (all x) *)
 Theorem C13_chebyshev_closed_form : forall n x, (n <= 12)%nat -> chebyshev_rec n x == chebyshev_explicit n x.
 Proof. exact chebyshev_closed_form. Qed.
@@ -33,6 +49,28 @@ Print Assumptions C13_legendre_at_one.
 Theorem C13_legendre_parity : forall n x, legendre_rec n (- x) == psign n * legendre_rec n x.
 Proof. exact legendre_parity. Qed.
 Print Assumptions C13_legendre_parity.
+
+(* every order: the textbook definition BY RECURSION (Bonnet, P_0 = 1, P_1 = x ; T_{n+2} = 2x T_{n+1} - T_n, T_0 = 1,
+   T_1 = x : Abramowitz-Stegun 8.5.3 / 22.7.4) has exactly one solution, the model's sequence; and P_n, T_n are
+   polynomials with n+1 coefficients *)
+Theorem C13_legendre_characterised : forall P : nat -> Q -> Q,
+  (forall x, P 0%nat x == 1) -> (forall x, P 1%nat x == x) ->
+  (forall n x, Qn (n + 2) * P (S (S n)) x == Qn (2 * n + 3) * x * P (S n) x - Qn (n + 1) * P n x) ->
+  forall n x, P n x == legendre_rec n x.
+Proof. exact legendre_characterised. Qed.
+Print Assumptions C13_legendre_characterised.
+Theorem C13_chebyshev_characterised : forall T : nat -> Q -> Q,
+  (forall x, T 0%nat x == 1) -> (forall x, T 1%nat x == x) ->
+  (forall n x, T (S (S n)) x == 2 * x * T (S n) x - T n x) ->
+  forall n x, T n x == chebyshev_rec n x.
+Proof. exact chebyshev_characterised. Qed.
+Print Assumptions C13_chebyshev_characterised.
+Theorem C13_legendre_is_polynomial : forall n, exists p, length p = S n /\ forall x, legendre_rec n x == peval p x.
+Proof. exact legendre_is_polynomial. Qed.
+Print Assumptions C13_legendre_is_polynomial.
+Theorem C13_chebyshev_is_polynomial : forall n, exists p, length p = S n /\ forall x, chebyshev_rec n x == peval p x.
+Proof. exact chebyshev_is_polynomial. Qed.
+Print Assumptions C13_chebyshev_is_polynomial.
 
 (* P_n(x) = 2^-n sum_k (-1)^k C(n,k) C(2n-2k,n) x^(n-2k) as a polynomial identity, n <= 12 *)
 Theorem C13_legendre_closed_form : forall n x, (n <= 12)%nat -> legendre_rec n x == legendre_explicit n x.
@@ -60,6 +98,22 @@ Theorem C13_fchebyshev_is_chebyshev : forall k x, fchebyshev_row k x == chebyshe
 Proof. exact fchebyshev_row_is_chebyshev. Qed.
 Print Assumptions C13_fchebyshev_is_chebyshev.
 
+(* the order guards of the source (`if m < K: raise ValueError`) are the documented minimum orders, and a call that
+   passes the guard returns one row per order 0..m-1 and one column per abscissa *)
+Theorem C13_basis_call_guard : forall f m xs,
+  basis_call f m xs = if Nat.ltb m (min_order_spec f) then None
+                      else Some (map (fun k => map (basis f k) xs) (seq 0 m)).
+Proof. exact basis_call_spec. Qed.
+Print Assumptions C13_basis_call_guard.
+(* the name tables of the source: func_fit's function_map resolves every name to the function of that name;
+   TraceSet._func_map does the same but has no chebyshev_split entry *)
+Theorem C13_function_map_is_name : forall f, fit_func f = f.
+Proof. exact fit_func_is_name. Qed.
+Print Assumptions C13_function_map_is_name.
+Theorem C13_xy_func_map_is_name : forall f, xy_func f = match f with ChebSplit => None | _ => Some f end.
+Proof. exact xy_func_is_name. Qed.
+Print Assumptions C13_xy_func_map_is_name.
+
 (* the algorithmic model's bases equal the specification's closed forms (what the checkers use), all x, order <= 12 *)
 Theorem C13_basis_is_spec : forall f k x, (k <= 12)%nat -> basis f k x == basis_spec f k x.
 Proof. exact basis_is_spec. Qed.
@@ -70,6 +124,23 @@ Print Assumptions C13_basis_is_spec.
 Theorem C13_solve_checked_sound : forall A b x, solve_checked A b = Some x -> veq (mat_vec A x) b /\ length x = length A.
 Proof. exact solve_checked_sound. Qed.
 Print Assumptions C13_solve_checked_sound.
+
+(* COMPLETENESS of the elimination: on a square system whose matrix has a trivial kernel the Gauss-Jordan code never
+   fails and the re-multiplication check accepts -- solve_checked answers, and its answer is the unique solution *)
+Theorem C13_solve_checked_complete : forall A b,
+  rows_len (length A) A -> length b = length A -> nonsingular A -> exists x, solve_checked A b = Some x.
+Proof. exact solve_checked_complete. Qed.
+Print Assumptions C13_solve_checked_complete.
+Theorem C13_solve_checked_unique : forall A b x y,
+  nonsingular A -> solve_checked A b = Some x -> length y = length A -> veq (mat_vec A y) b -> veq y x.
+Proof. exact solve_checked_unique. Qed.
+Print Assumptions C13_solve_checked_unique.
+(* the weighted normal equations: full column rank on the points of positive weight => the solver answers with the
+   global minimiser (no longer conditional on the checker having accepted) *)
+Theorem C13_wls_solve_total : forall m D, wf m D -> full_rank m D ->
+  exists x, wls_solve m D = Some x /\ length x = m /\ forall z, length z = m -> chi2 D x <= chi2 D z.
+Proof. exact wls_solve_total. Qed.
+Print Assumptions C13_wls_solve_total.
 
 (* normal equations through the checked solver give the global minimum of the weighted chi-square *)
 Theorem C13_wls_solve_optimal : forall m D x, wf m D -> wls_solve m D = Some x ->
@@ -115,6 +186,24 @@ Theorem C13_func_fit_optimal : forall f x y w ncoeff ia ans ifunc res yfit,
               forall z, length z = count_true iaf -> chi2 D sol <= chi2 D z.
 Proof. exact gen_func_fit_optimal. Qed.
 Print Assumptions C13_func_fit_optimal.
+
+(* UNCONDITIONAL form: on every well-posed problem (>= 2 good points, weights >= 0, no shape error, full column rank of
+   the free basis columns on the good points) func_fit answers, and the answer is the weighted least-squares solution *)
+Theorem C13_func_fit_total_optimal : forall f x y w ncoeff ia ans ifunc,
+  (2 <= ngood_of y w)%nat -> (ncoeff <= length ia)%nat -> Forall (fun v => 0 <= v) w ->
+  let ncfit := Nat.min (ngood_of y w) ncoeff in
+  let rows := scale_rows ifunc (map (basis_row f ncfit) x) in
+  let iaf := firstn ncfit ia in
+  let D := free_problem rows w y iaf (fixed_part ans ia) in
+  (forallb (@Datatypes.id bool) iaf = true \/ (length ans = ncoeff /\ ncfit = ncoeff)) ->
+  full_rank (count_true iaf) D ->
+  exists res yfit sol, func_fit f x y w ncoeff ia ans ifunc = Some (res, yfit) /\
+    res = scatter 0 iaf sol ans ++ zeros (ncoeff - ncfit) /\
+    yfit = map (fun r => dot r (scatter 0 iaf sol ans)) rows /\
+    length sol = count_true iaf /\
+    forall z, length z = count_true iaf -> chi2 D sol <= chi2 D z.
+Proof. exact func_fit_total_optimal. Qed.
+Print Assumptions C13_func_fit_total_optimal.
 
 (* the same in terms of the full coefficient vector: among ALL coefficient vectors carrying the prescribed values at
    the fixed positions, the returned one minimises the weighted chi-square of the data *)
@@ -190,6 +279,40 @@ Theorem C13_traceset_fit_eval_consistent : forall f ncoeff oxmin oxmax j xpos yp
 Proof. exact traceset_fit_eval_consistent. Qed.
 Print Assumptions C13_traceset_fit_eval_consistent.
 
+(* TraceSet.__init__ as the source writes it -- keyword defaults, tempivar = invvar*inmask, the rejection loop
+   `while (not qdone) and (iIter <= maxiter)` around func_fit and a djs_reject call without criteria (all regenerated /
+   verified by the translator) -- IS the reference form: one weighted fit per trace, outmask all True, for every
+   maxiter >= 0 ; a negative maxiter never runs the body (the constructor raises) *)
+Theorem C13_init_loop_is_single_fit : forall f ncoeff maxiter oxmin oxmax j xpos ypos ivar inmask, (0 <= maxiter)%Z ->
+  ts_fit_src (Some f) (Some ncoeff) (Some maxiter) oxmin oxmax j xpos ypos (Some ivar) (Some inmask)
+  = match ts_fit f ncoeff oxmin oxmax j xpos ypos ivar inmask with
+    | Some (t, yfit) =>
+        Some (t, yfit, map (fun q : vec * vec * vec * list bool => repeat true (length (snd (fst (fst q)))))
+                           (combine (combine (combine xpos ypos) ivar) inmask))
+    | None => None
+    end.
+Proof. exact ts_fit_src_is_ref. Qed.
+Print Assumptions C13_init_loop_is_single_fit.
+Theorem C13_init_negative_maxiter_raises : forall fuel fit y tw maxiter mask0, (maxiter < 0)%Z ->
+  fit_loop fuel fit y tw maxiter g_iiter0 g_qdone0 mask0 None = None.
+Proof. exact fit_loop_negative. Qed.
+Print Assumptions C13_init_negative_maxiter_raises.
+Theorem C13_init_defaults : forall oxmin oxmax j xpos ypos,
+  ts_fit_src None None None oxmin oxmax j xpos ypos None None
+  = ts_fit_src (Some Legendre) (Some 3%nat) (Some 10%Z) oxmin oxmax j xpos ypos
+               (Some (map (map (fun _ => 1)) xpos)) (Some (map (map (fun _ => true)) xpos)).
+Proof. exact ts_fit_src_defaults. Qed.
+Print Assumptions C13_init_defaults.
+(* fit -> evaluate consistency for the constructor as the source writes it, including the loop and the masks *)
+Theorem C13_traceset_src_fit_eval_consistent : forall f ncoeff maxiter oxmin oxmax j xpos ypos ivar inmask t yfit om,
+  ts_fit_src (Some f) (Some ncoeff) (Some maxiter) oxmin oxmax j xpos ypos (Some ivar) (Some inmask) = Some (t, yfit, om) ->
+  (0 <= maxiter)%Z -> f <> ChebSplit -> (1 <= ncoeff)%nat ->
+  length ypos = length xpos -> length ivar = length xpos -> length inmask = length xpos ->
+  (exists ys, ts_xy t (Some xpos) false = Some (xpos, ys) /\ meq ys yfit) /\
+  Forall (Forall (fun b => b = true)) om.
+Proof. exact traceset_src_fit_eval_consistent. Qed.
+Print Assumptions C13_traceset_src_fit_eval_consistent.
+
 (* the default grid has one row per trace, floor(xmax-xmin+1) columns, entries xmin, xmin+1, ... *)
 Theorem C13_default_grid : forall t ig, xy_supported (ts_func t) = true ->
   exists ys, ts_xy t None ig = Some (default_grid t, ys) /\
@@ -210,6 +333,26 @@ Example C13_example_fit_fixed :
   func_fit Poly [0; 1; 2; 3] [1; 3; 7; 13] [1; 1; 0; 1] 3 [false; true; true] [1; 0; 0] None
   = Some ([1; 1; 1], [1; 3; 7; 13]).
 Proof. vm_compute. reflexivity. Qed.
+(* the source-form constructor with defaults (legendre, 3 coefficients, maxiter 10), a masked point and a zero weight *)
+Example C13_example_init_src :
+  match ts_fit_src None None None None None None [[0; 1; 2; 3; 4]] [[1; 2; 5; 10; 100]]
+                   (Some [[1; 1; 1; 1; 0]]) (Some [[true; true; true; true; true]]) with
+  | Some (t, yfit, om) => Nat.eqb (ts_ncoeff t) 3 && bmat_eqb om [[true; true; true; true; true]]
+                          && meq_bool (mred yfit) [[1; 2; 5; 10; 17]]
+  | None => false
+  end = true.
+Proof. vm_compute. reflexivity. Qed.
+(* a concrete problem of full rank (two points of positive weight at distinct abscissae, one zero-weight point) *)
+Example C13_example_full_rank : full_rank 2 [([1; 0], 1, 5); ([1; 1], 1, 7); ([1; 2], 0, 9)].
+Proof. exact full_rank_example. Qed.
+Example C13_example_solve : solve_checked [[2; 1; 0]; [1; 3; 1]; [0; 1; 4]] [3; 5; 5] = Some [1; 1; 1].
+Proof. vm_compute. reflexivity. Qed.
+(* the characterisation is not vacuous: the closed form of order <= 2 written out satisfies its hypotheses up to there,
+   and the model's own sequence satisfies them for every n *)
+Example C13_example_characterised : forall n x, legendre_rec n x == legendre_rec n x /\ chebyshev_rec 3 x == 4 * x * x * x - 3 * x.
+Proof. intros n x. split; [exact (legendre_characterised legendre_rec (fun _ => Qeq_refl _) (fun _ => Qeq_refl _) legendre_bonnet n x) | exact (chebyshev_3 x)]. Qed.
+Example C13_example_guard : basis_call ChebSplit 1 [1 # 2] = None /\ basis_call Poly 2 [1 # 2] = Some [[1]; [1 # 2]].
+Proof. split; vm_compute; reflexivity. Qed.
 Example C13_example_trace_jump :
   match ts_fit Legendre 2 None None (Some (1, 2, 1 # 2)) [[0; 1; 2; 3]] [[1; 2; 4; 5]] [[1; 1; 1; 1]] [[true; true; true; true]] with
   | Some (t, yfit) => match ts_xy t (Some [[0; 1; 2; 3]]) false with
